@@ -7,9 +7,9 @@ import samplib as S
 
 PID = "C01"
 LEVEL = "proof"
-COQ_TARGETS = ["Props/C01.vo", "Props/C01_invcdf.vo", "Props/C01_fp.vo", "Props/C01_identities.vo"]
-PROPS_FILES = ["C01", "C01_invcdf", "C01_fp", "C01_identities"]
-THEOREMS = ["C01_gamma_boost_event", "C01_gamma_boost_kernel", "C01_gamma_boost_kernel_limit", "C01_mt_identity", "C01_mt_envelope", "C01_mt_squeeze", "C01_bb_exact_test", "C01_bc_exact_test", "C01_ig_roots_solve", "C01_skew_repr", "C01_fingerprints", "C01_evalI_sound", "C01_weibull_event", "C01_pareto_event", "C01_gumbel_event", "C01_frechet_event",
+COQ_TARGETS = ["Props/C01.vo", "Props/C01_invcdf.vo", "Props/C01_fp.vo", "Props/C01_identities.vo", "Props/C01_model.vo"]
+PROPS_FILES = ["C01", "C01_invcdf", "C01_fp", "C01_identities", "C01_model"]
+THEOREMS = ["C01_model_beta_bb_returns_accepted", "C01_model_beta_bb_accepts", "C01_model_gamma_returns_accepted", "C01_model_gamma_accepts", "C01_gamma_boost_event", "C01_gamma_boost_kernel", "C01_gamma_boost_kernel_limit", "C01_mt_identity", "C01_mt_envelope", "C01_mt_squeeze", "C01_bb_exact_test", "C01_bc_exact_test", "C01_ig_roots_solve", "C01_skew_repr", "C01_fingerprints", "C01_evalI_sound", "C01_weibull_event", "C01_pareto_event", "C01_gumbel_event", "C01_frechet_event",
             "C01_cauchy_event", "C01_triangular_event", "C01_weibull_value", "C01_cauchy_run", "C01_triangular_run"]
 TRUSTED_BASE = [
     "Coq 8.16.1 kernel + vm_compute; Coq-Interval 4.6.1 operations (I.exp, I.ln, …) with their containment theorems, "
